@@ -4,120 +4,14 @@
    (b) the same difference inside groups and clipping runs.  Such lists evaluate to equivalent states. *)
 From Coq Require Import ZArith Reals Lra Psatz List Bool Lia ZifyBool.
 From PsdV Require Import Composite.Scalar Composite.Model Composite.Geometry Composite.Doc
-  Composite.ProofsKernel Composite.ProofsGeometry Composite.ProofsBlend Composite.ProofsLaws Composite.ProofsDoc.
+  Composite.ProofsKernel Composite.ProofsGeometry Composite.ProofsBlend Composite.ProofsLaws Composite.ProofsLawsNS
+  Composite.ProofsSim Composite.ProofsDoc.
 Import ListNotations.
 Open Scope R_scope.
 
-(* l' is l with some shape-0 leaves removed, recursively inside groups and clip lists *)
-Inductive sim : list elR -> list elR -> Prop :=
-| sim_nil : sim [] []
-| sim_drop cs fa B ko cl l' l : sim l' l -> sim l' (LeafR cs 0 fa B ko cl :: l)
-| sim_cons e' e l' l : esim e' e -> sim l' l -> sim (e' :: l') (e :: l)
-with esim : elR -> elR -> Prop :=
-| esim_leaf cs f fa B ko cl' cl : sim cl' cl -> esim (LeafR cs f fa B ko cl') (LeafR cs f fa B ko cl)
-| esim_group iso ch' ch fa B ko cl' cl :
-    sim ch' ch -> sim cl' cl -> esim (GroupR iso ch' fa B ko cl') (GroupR iso ch fa B ko cl).
-
-Scheme sim_ind2 := Induction for sim Sort Prop
-  with esim_ind2 := Induction for esim Sort Prop.
-Combined Scheme sim_esim_ind from sim_ind2, esim_ind2.
-
-Lemma sim_app a' a b' b : sim a' a -> sim b' b -> sim (a' ++ b') (a ++ b).
-Proof. induction 1; intros Hb; cbn; [assumption | constructor; auto | constructor; auto]. Qed.
-
-Lemma Inv_a_ge_a0 (s : stR) : Inv s -> a0 s <= a s.
-Proof.
-  intros I. rewrite (inv_a _ I). pose proof (inv_a0 _ I). pose proof (inv_ag _ I). unfold unit in *. nra.
-Qed.
-
-(* colours of two equivalent clip-compositors agree as soon as the base has alpha *)
-Lemma clip_color_rel (u v : stR) (al : R) :
-  Inv u -> Inv v -> peq u v -> a0 u = al -> al <> 0 -> c u = c v.
-Proof.
-  intros Iu Iv E Ha NZ. destruct E as [_ _ _ _ Ea Ec].
-  pose proof (Inv_a_ge_a0 _ Iu) as G. pose proof (inv_a0 _ Iu) as U. unfold unit in U.
-  assert (a u <> 0) by (rewrite Ha in *; lra).
-  apply mul_cancel_l with (a u); [assumption|]. rewrite Ec, Ea. reflexivity.
-Qed.
-
-Lemma wf_clips_of e : wf e -> Forall wf (match e with Leaf _ _ _ _ _ cl => cl | Group _ _ _ _ _ cl => cl end).
-Proof. intros W; inversion W; assumption. Qed.
-
-Theorem sim_sound :
-  (forall l' l, sim l' l -> Forall wf l' -> Forall wf l ->
-     forall s t, Inv s -> Inv t -> peq s t -> peq (apply_list l' s) (apply_list l t)) /\
-  (forall e' e, esim e' e -> wf e' -> wf e ->
-     forall s t, Inv s -> Inv t -> peq s t -> peq (apply_elem e' s) (apply_elem e t)).
-Proof.
-  apply sim_esim_ind.
-  - (* nil *) intros _ _ s t _ _ E. exact E.
-  - (* drop *) intros cs fa B ko cl l' l Hs IH W' W s t Is It E.
-    inversion W as [|? ? We Wl]; subst. cbn [apply_list fold_left].
-    pose proof (leaf_null_noop cs fa B ko cl t It) as N.
-    apply (IH W' Wl s _ Is (apply_elem_Inv _ We t It)).
-    eapply peq_trans; [exact E | apply peq_sym; exact N].
-  - (* cons *) intros e' e l' l He IHe Hs IH W' W s t Is It E.
-    inversion W' as [|? ? We' Wl']; inversion W as [|? ? We Wl]; subst. cbn [apply_list fold_left].
-    apply (IH Wl' Wl); [apply apply_elem_Inv; assumption | apply apply_elem_Inv; assumption |].
-    apply IHe; assumption.
-  - (* leaf *) intros cs f fa B ko cl' cl Hs IH W' W s t Is It E.
-    inversion W'; inversion W; subst. cbn [apply_elem]. unfold apply_factors.
-    pose proof (init_Inv false cs f ltac:(assumption) ltac:(assumption)) as I0.
-    pose proof (IH ltac:(assumption) ltac:(assumption) _ _ I0 I0 (peq_refl _)) as Ecl.
-    fold (apply_list cl' (@init ROps false cs f)) in *. fold (apply_list cl (@init ROps false cs f)) in *.
-    apply apply_source_peq; [exact E|].
-    destruct (Req_dec f 0) as [Z | NZ].
-    + left. rewrite Z. change (fmul ROps) with Rmult. rring.
-    + right. apply (clip_color_rel _ _ f); try assumption.
-      * apply apply_list_Inv; assumption.
-      * apply apply_list_Inv; assumption.
-      * destruct (apply_list_backdrop_fields cl' (@init ROps false cs f)) as [E1 _]. exact E1.
-  - (* group *) intros iso ch' ch fa B ko cl' cl Hch IHch Hcl IHcl W' W s t Is It E.
-    inversion W'; inversion W; subst. cbn [apply_elem].
-    set (bs := if ko then c0 s else c s). set (as_ := if ko then a0 s else a s).
-    set (bt := if ko then c0 t else c t). set (at_ := if ko then a0 t else a t).
-    assert (Hab : as_ = at_ /\ as_ * bs = at_ * bt).
-    { destruct E. unfold as_, at_, bs, bt. destruct ko; split; assumption. }
-    destruct Hab as [Hab Hp]. 
-    assert (Ubs : unit bs /\ unit as_) by (unfold bs, as_; destruct ko; split;
-      [apply (inv_c0 _ Is) | apply (inv_a0 _ Is) | apply (inv_c _ Is) | apply (Inv_a_unit _ Is)]).
-    assert (Ubt : unit bt /\ unit at_) by (unfold bt, at_; destruct ko; split;
-      [apply (inv_c0 _ It) | apply (inv_a0 _ It) | apply (inv_c _ It) | apply (Inv_a_unit _ It)]).
-    destruct Ubs as [Ubs Uas], Ubt as [Ubt Uat].
-    pose proof (init_Inv iso bs as_ Ubs Uas) as I1.
-    pose proof (init_Inv iso bt at_ Ubt Uat) as I2.
-    assert (E12 : peq (@init ROps iso bs as_) (@init ROps iso bt at_)).
-    { rewrite <- Hab in *. apply init_peq. rewrite Hp. reflexivity. }
-    pose proof (IHch ltac:(assumption) ltac:(assumption) _ _ I1 I2 E12) as Eg.
-    fold (apply_list ch' (@init ROps iso bs as_)) in *. fold (apply_list ch (@init ROps iso bt at_)) in *.
-    pose proof (apply_list_Inv ch' ltac:(assumption) _ I1) as Ig'.
-    pose proof (apply_list_Inv ch ltac:(assumption) _ I2) as Ig.
-    set (g' := apply_list ch' (@init ROps iso bs as_)) in *.
-    set (g := apply_list ch (@init ROps iso bt at_)) in *.
-    unfold finish. unfold apply_factors.
-    destruct Eg as [G0 Gc0 Gsg Gag Ga Gc].
-    rewrite Gsg, Gag.
-    fold (apply_list cl' (@init ROps false (@finish_color ROps g') (ag g))).
-    fold (apply_list cl (@init ROps false (@finish_color ROps g) (ag g))).
-    apply apply_source_peq; [exact E|].
-    destruct (Req_dec (ag g) 0) as [Z | NZ].
-    + left. rewrite Z. change (fmul ROps) with Rmult. rring.
-    + right.
-      assert (Hfc : @finish_color ROps g' = @finish_color ROps g).
-      { assert (NZ' : ag g' <> 0) by (rewrite Gag; exact NZ).
-        destruct (finish_unclipped g' Ig' NZ') as (_ & F1' & F2').
-        destruct (finish_unclipped g Ig NZ) as (_ & F1 & F2).
-        rewrite F1, F1'. apply mul_cancel_l with (ag g); [exact NZ|].
-        transitivity (a g' * c g' - a0 g' * c0 g' * (1 - ag g')); [rewrite <- Gag; exact F2'|].
-        rewrite Gc, Gc0, Gag. symmetry. exact F2. }
-      rewrite Hfc.
-      pose proof (init_Inv false _ _ (finish_color_unit g) (inv_ag _ Ig)) as I0.
-      pose proof (IHcl ltac:(assumption) ltac:(assumption) _ _ I0 I0 (peq_refl _)) as Ecl.
-      apply (clip_color_rel _ _ (ag g)); try assumption.
-      * apply apply_list_Inv; assumption.
-      * apply apply_list_Inv; assumption.
-      * destruct (apply_list_backdrop_fields cl' (@init ROps false (@finish_color ROps g) (ag g))) as [E1 _]. exact E1.
-Qed.
+(* the simulation relation and its soundness live in ProofsSim.v; here b = true (shape-0 elements) *)
+Notation sim := (ProofsSim.sim true).
+Notation esim := (ProofsSim.esim true).
 
 (* ------------------------------------------------------------------ sampling for two nested viewports *)
 Section Crop.
@@ -149,8 +43,8 @@ Proof.
   destruct (sample_runs vp' x y k ls) as [pend' res'], (sample_runs vp x y k ls) as [pend res].
   cbn [fst snd] in IH. destruct IH as [IH1 IH2].
   destruct (at_clip (attrs_of L)); cbn [fst snd].
-  - split; [|assumption]. apply sim_app; [apply HL; try assumption; constructor | assumption].
-  - split; [constructor|]. apply sim_app; [apply HL; assumption | assumption].
+  - split; [|assumption]. apply sim_app; [apply HL; try assumption; apply sim_nil | assumption].
+  - split; [apply sim_nil|]. apply sim_app; [apply HL; assumption | assumption].
 Qed.
 
 Lemma list_sim (ls : list layer) vp' vp :
@@ -163,7 +57,7 @@ Qed.
 
 Lemma sim_refl_leaf cs f fa B ko cl' cl l' l : sim cl' cl -> sim l' l ->
   sim (LeafR cs f fa B ko cl' :: l') (LeafR cs f fa B ko cl :: l).
-Proof. intros. apply sim_cons; [constructor; assumption | assumption]. Qed.
+Proof. intros. apply sim_cons; [apply esim_leaf; assumption | assumption]. Qed.
 
 Theorem sample_layer_crop (L : layer) : crop_ok L.
 Proof.
@@ -171,9 +65,9 @@ Proof.
     intros vp' vp clips' clips S Hin' Hcl.
   - pose proof (subrect_inside vp' vp x y S Hin') as Hin.
     cbn [sample_layer attrs_of bbox_of].
-    destruct (negb (at_vis at_)); [constructor|].
+    destruct (negb (at_vis at_)); [apply sim_nil|].
     destruct (is_zero_rect (intersect vp rc)) eqn:Z.
-    + rewrite (intersect_sub_zero vp' vp rc S Z). constructor.
+    + rewrite (intersect_sub_zero vp' vp rc S Z). apply sim_nil.
     + pose proof (paste_abs vp rc (@plane_at ROps alpha (rwidth rc)) (@f0 ROps) x y Hin) as Pa.
       pose proof (paste_crop vp vp' rc (@plane_at ROps alpha (rwidth rc)) (@f0 ROps) x y Hin Hin') as Pc1.
       pose proof (paste_crop vp vp' rc (@plane_at ROps (nth k chans []) (rwidth rc)) (@f1 ROps) x y Hin Hin') as Pc2.
@@ -181,26 +75,26 @@ Proof.
       destruct (is_zero_rect (intersect vp' rc)) eqn:Z'.
       * pose proof (zero_intersect_not_inside vp' rc x y Z' Hin') as Hout.
         destruct vp as [[[vl vt] vr] vb], rc as [[[bl bt] br] bb_]. rewrite Pa, Hout.
-        apply sim_drop. constructor.
+        apply sim_dropR; [apply nb_shape | apply sim_nil].
       * destruct vp' as [[[vl' vt'] vr'] vb'], vp as [[[vl vt] vr] vb].
-        rewrite Pc1, Pc2, Fc. apply sim_refl_leaf; [assumption | constructor].
+        rewrite Pc1, Pc2, Fc. apply sim_refl_leaf; [assumption | apply sim_nil].
   - pose proof (subrect_inside vp' vp x y S Hin') as Hin.
     rewrite !sample_group_unfold.
-    destruct (negb (at_vis at_)); [constructor|].
+    destruct (negb (at_vis at_)); [apply sim_nil|].
     set (bb := bbox_of (Gr pass ch at_)).
     pose proof (factors_at_crop vp' vp at_ Hin' Hin) as Fc.
     destruct (is_zero_rect (intersect vp bb)) eqn:Z.
-    + rewrite (intersect_sub_zero vp' vp bb S Z). constructor.
+    + rewrite (intersect_sub_zero vp' vp bb S Z). apply sim_nil.
     + cbn zeta. rewrite (inside_intersect_l vp bb x y Hin).
       destruct (is_zero_rect (intersect vp' bb)) eqn:Z'.
-      * rewrite (zero_intersect_not_inside vp' bb x y Z' Hin'). apply sim_drop. constructor.
+      * rewrite (zero_intersect_not_inside vp' bb x y Z' Hin'). apply sim_dropR; [apply nb_shape | apply sim_nil].
       * rewrite (inside_intersect_l vp' bb x y Hin'). rewrite Fc.
         destruct (inside bb x y) eqn:Hb.
         -- destruct (intersect_subrect vp' vp bb S Z') as [S' _].
-           apply sim_cons; [|constructor]. constructor; [|assumption].
+           apply sim_cons; [|apply sim_nil]. apply esim_group; [|assumption].
            apply list_sim; try assumption.
            rewrite inside_intersect_l; assumption.
-        -- apply sim_refl_leaf; [assumption | constructor].
+        -- apply sim_refl_leaf; [assumption | apply sim_nil].
 Qed.
 
 Theorem sample_list_crop (ls : list layer) vp' vp :
@@ -226,7 +120,7 @@ Proof.
   pose proof (init_Inv false cb ab Hcb Hab) as I0.
   pose proof (sample_list_wf ls vp' x y k OK) as W'.
   pose proof (sample_list_wf ls vp x y k OK) as W.
-  pose proof (proj1 sim_sound _ _ (sample_list_crop x y k ls vp' vp S Hin) W' W _ _ I0 I0 (peq_refl _)) as E.
+  pose proof (sim_sound_peq _ _ (sample_list_crop x y k ls vp' vp S Hin) W' W _ _ I0 I0 (peq_refl _)) as E.
   apply (finish_peq _ _ (apply_list_Inv _ W' _ I0) (apply_list_Inv _ W _ I0) E).
 Qed.
 
